@@ -439,3 +439,11 @@ package node
 //@   inline
 //@   loop 1
 //@   invariant 1 <= i && i % 2 == 1 && (len(cmd.Args) - 1) % 2 == 0 && len(cmd.Args) >= 3
+
+//@ property C13 C11
+// SCAN argument parser: total on any argument vector; the cursor is the first argument, unchanged
+//@ func parseScanArgs(args [][]byte) (cursor []byte, match string, count int, err error)
+//@   ensures len(args) >= 1 ==> sameSlice(cursor, args[0])
+//@   ensures len(args) == 0 ==> err == nil && count == 0
+//@ loop 1
+//@   invariant 0 <= i && sameSlice(cursor, old(args[0]))
